@@ -286,11 +286,40 @@ C04_Counts(ev, post) ==
                THEN {"C04.CountsAgree:first-unseen"} ELSE {})
     ELSE {}
 
+(* SEARCH by flags agrees with the flags (of the mailbox as it is when the
+   command runs; SEARCH changes nothing).  Keys outside this table are not judged
+   here (C14 decides SEARCH in general). *)
+KnownKeys == {"ALL", "1:*", "DELETED", "NOT DELETED", "UNSEEN", "SEEN", "FLAGGED", "KEYWORD k1", "RECENT",
+              "ANSWERED", "UNDELETED", "NEW", "OLD"}
+KeyHolds(key, x) ==
+    CASE key \in {"ALL", "1:*"} -> TRUE
+      [] key = "DELETED" -> "Deleted" \in x.fl
+      [] key \in {"NOT DELETED", "UNDELETED"} -> "Deleted" \notin x.fl
+      [] key = "UNSEEN" -> "unseen" \in x.fl
+      [] key = "SEEN" -> "unseen" \notin x.fl
+      [] key = "FLAGGED" -> "Flagged" \in x.fl
+      [] key = "ANSWERED" -> "Answered" \in x.fl
+      [] key = "KEYWORD k1" -> "k1" \in x.fl
+      [] key = "RECENT" -> "Recent" \in x.fl
+      [] key = "NEW" -> "Recent" \in x.fl /\ "unseen" \in x.fl
+      [] key = "OLD" -> "Recent" \notin x.fl
+      [] OTHER -> TRUE
+C04_Search(pre, ev, post) ==
+    IF ev.act = "Search" /\ ev.status = "OK" /\ ev.key \in KnownKeys
+       /\ Has(pre, ev.src) /\ Live(pre, ev.src) /\ Has(post, ev.src) /\ Live(post, ev.src)
+       /\ pre.mb[ev.src].msgs = post.mb[ev.src].msgs
+    THEN LET ms == post.mb[ev.src].msgs
+             hit == {i \in DOMAIN ms : KeyHolds(ev.key, ms[i])}
+             want == IF ev.uid THEN {ms[i].uid : i \in hit} ELSE hit
+         IN IF SeqToSet(ev.found) # want \/ Len(ev.found) # Cardinality(want)
+            THEN {"C04.SearchAgrees"} ELSE {}
+    ELSE {}
+
 C04_Step(pre, ev, post) ==
     LET s == ev.sess
         m == IF ev.act \in {"Store", "Fetch"} THEN ev.src ELSE ""
     IN
-    C04_Counts(ev, post) \cup
+    C04_Counts(ev, post) \cup C04_Search(pre, ev, post) \cup
     (* memory-level complement everywhere *)
     UNION {IF Live(post, x) THEN SeenComplement(post.mb[x]) ELSE {} : x \in Names(post)}
     \cup
